@@ -3,7 +3,7 @@
    (tied to the regenerated kernels by proofs/C11.v) to the real functions of proofs/C10_RInt.v. *)
 From Coq Require Import Reals Qreals.
 From Coquelicot Require Import Coquelicot.
-From V Require Import lib.Tree lib.C10_aux gen.Gen_C11_kern model.C11 proofs.C11 proofs.C10_RInt proofs.C10_QR.
+From V Require Import lib.Xval lib.C10_aux model.C11_spec proofs.C10_RInt proofs.C10_QR.
 From Coq Require Import Lra.
 
 (* ---- elementary scores ---- *)
